@@ -55,6 +55,11 @@ def gen_cases(ctx):
         geo = rng.sample(geo, min(len(geo), 60))
     for j, (p, la, lb, bad) in enumerate(geo):
         blocks = cd.two_branches(p, la, lb, bad_at=bad, shared=(j % 2 == 0), txful=(j % 3 != 0))
+        if j % 3 != 1:                              # an effective DAO vote (gas price) on one of the competing branches
+            gb = rng.choice(["A0", "B0", "B%d" % (lb - 1)])
+            for b in blocks:
+                if b["name"] == gb and not b.get("bad") and not (bad and bad[0] == gb[0] and bad[1] < int(gb[1:])):
+                    b["gov"] = rng.choice([10, 20])
         names = [b["name"] for b in blocks]
         orders = [list(names)]                      # A branch first, then B in order
         a_first = [n for n in names if n[0] in "pA"]
@@ -93,6 +98,8 @@ def gen_cases(ctx):
     # three competing branches, random
     for i in range(40 if quick else 1500):
         blocks = cd.rnd_tree(rng, rng.choice([4, 5, 6, 7]), pbad=0.3, pno=0.0)
+        if rng.random() < 0.4:
+            cd.add_gov(rng, blocks)
         cases.append({"id": "t%d" % i, "naccts": 3, "blocks": blocks, "arrivals": cd.rnd_arrivals(rng, blocks, shuffle=0.7, dup=0.1)})
     return cases
 
@@ -196,9 +203,31 @@ def run(ctx):
         rc_["mode"] = "crash"
         rc_["boundaries_only"] = True
         rcases.append(rc_)
+    # ... and reorganisations INTERRUPTED at every write unit (crash inside swapChain, restart, recovery from the marker): the
+    # node must end exactly on a legitimate tip, with that tip's system parameters in force (P11) and follow it (P12)
+    ncut = 0
+    for c in (corpus + [x for x in cases if x["id"].startswith("g") and any(b.get("gov") for b in x["blocks"])
+                        and not any(b.get("bad") for b in x["blocks"])][: (3 if ctx.tier == "quick" else 40)]):
+        xc = dict(c)
+        xc["mode"] = "crash"
+        xc["id"] = c["id"] + "-cut"
+        xc["partial"], xc["recrash"] = ("ends", "none") if ctx.tier == "quick" else ("all", "units")
+        rcases.append(xc)
+        ncut += 1
     routs = cd.run_engine(ctx, eng, rcases, "c07r") if rcases else []
     nrestart = 0
     for c, o in zip(rcases, routs):
+        if not c.get("boundaries_only"):
+            for kr in o["crash"]:
+                nrestart += 1
+                if kr["init_panic"] or kr["recover_err"]:
+                    fails.append(("C07:cut-restart-fails", "restart after a cut at unit %d fails: %s%s" % (kr["k"], kr["init_panic"][:60], kr["recover_err"][:60]), c))
+                elif kr["pred"]:
+                    fails.append(("C07:cut-inv:" + kr["pred"][0].split(" ")[0],
+                                  "after a reorganisation interrupted at unit %d/%d and the recovery: %s" % (kr["k"], kr.get("p", 0), kr["pred"][0]), c))
+                elif not (kr["legit"] or kr.get("legit_mid")):
+                    fails.append(("C07:cut-best-not-legit", "best block after a cut at unit %d + recovery is neither the old nor the new tip" % kr["k"], c))
+            continue
         ua = o["unit_arrival"]
         recs = {(kr["k"], kr.get("p", 0)): kr for kr in o["crash"]}
         for i in range(len(c["arrivals"])):
